@@ -458,6 +458,10 @@ services:
         suffix: json
   wms:
     srs: ['EPSG:4326', 'EPSG:3857', 'EPSG:900913']
+    bbox_srs:
+      - srs: 'EPSG:4326'
+        bbox: [-180, -70, 180, 80]
+      - 'EPSG:3857'
     image_formats: ['image/png', 'image/jpeg', 'image/gif']
     featureinfo_types: ['text', 'html', 'xml']
     md:
@@ -637,6 +641,16 @@ def base_requests():
                                                            width='300.0', height='150.00')))
     out.append(('wms130.map.inimage.decimal', '/service', kv(WMS_MAP, version='1.3.0', srs=None, crs='EPSG:4326', layers='nolayer',
                                                              exceptions='INIMAGE', width='3e2', height='64.5')))
+    # maps that overlap the extent the service offers for the SRS (bbox_srs: EPSG:4326 = -180,-70,180,80) on each side, in a
+    # corner, around it and completely outside: the answer has the REQUESTED size in every case
+    for tag, bb in (('east', '170,0,190,10'), ('south', '0,-80,10,-60'), ('west', '-190,0,-170,10'), ('north', '0,70,10,90'),
+                    ('southeast', '170,-80,190,-60'), ('northwest', '-190,70,-170,90'), ('around', '-200,-100,200,100'),
+                    ('outside', '190,0,200,10'), ('edge', '-180,-70,180,80')):
+        out.append(('wms111.map.extent.' + tag, '/service', kv(WMS_MAP, bbox=bb, width='80', height='40')))
+    out.append(('wms130.map.extent.east', '/service', kv(WMS_MAP, version='1.3.0', srs=None, crs='EPSG:4326', bbox='0,170,10,190', width='80',
+                                                         height='40', layers='direct')))
+    out.append(('wms111.map.extent.jpeg', '/service', kv(WMS_MAP, bbox='170,-80,190,10', width='33', height='77', layers='direct',
+                                                         format='image/jpeg')))
     out.append(('kml.root', '/kml/cached/EPSG900913/0/0/0.kml', []))
     out.append(('kml.tile', '/kml/cached/EPSG900913/1/0/1.png', []))
     out.append(('root', '/', []))
@@ -693,11 +707,20 @@ def wsgi_path(path, raw_latin1):
     return ''.join(out)
 
 
+class Encoded(str):
+    """a query value that is already percent-encoded (arbitrary bytes, not necessarily UTF-8)"""
+
+
+NON_UTF8 = ['%FF', '%E4', '%C3%28', '%ED%A0%80', '%F8%88%80%80%80', '%80']
+
+
 def enc_query(pairs, rng, raw_prob=0.0):
     from urllib.parse import quote
     parts = []
     for k, v in pairs:
-        if rng.random() < raw_prob:
+        if isinstance(v, Encoded):
+            parts.append(quote(k, safe='') + '=' + str(v))
+        elif rng.random() < raw_prob:
             # raw, not percent-encoded (what a sloppy client sends): only characters that may appear in a request line
             vv = ''.join(c for c in v if c not in '\r\n &#' and ord(c) < 256 and ord(c) > 32)
             parts.append(k + '=' + vv)
@@ -779,6 +802,8 @@ def call_app(app, path, qs, headers):
            'wsgi.version': (1, 0), 'wsgi.multithread': False, 'wsgi.multiprocess': False, 'wsgi.run_once': False,
            'SCRIPT_NAME': '', 'HTTP_HOST': 'localhost'}
     env.update(headers)
+    if qs is None:
+        del env['QUERY_STRING']       # PEP 3333: QUERY_STRING may be absent when the URL has no query
     if env.pop('mapproxy.authorize', None) == 'limited':
         # authorization callback: everything is allowed, but only inside a small area (tiles outside are answered empty)
         def authorize(service, layers=(), environ=None, **kw):
@@ -1199,6 +1224,17 @@ def part_app(ctx, skeletons):
         stream.append(('rawpath.' + (rawp.split('/')[1][:8] or 'root'), RawPath(rawp), [], {}, None, 'non-UTF-8 path bytes', 'ok'))
         stream.append(('rawpath.' + (rawp.split('/')[1][:8] or 'root'), RawPath(rawp), [('service', 'WMS'), ('request', 'GetCapabilities')], {}, None,
                        'non-UTF-8 path bytes', 'ok'))
+    # percent escapes that are not UTF-8 (%FF, a lone continuation byte, an encoded surrogate, ..) in every parameter of every request
+    from urllib.parse import quote as _quote
+    for bi, (name, path, pairs) in enumerate(bases):
+        for i, (key, val) in enumerate(pairs):
+            for j, esc in enumerate(NON_UTF8):
+                if ctx.quick and (bi + i + j) % 3:
+                    continue
+                for v2 in (Encoded(_quote(val, safe='/:,') + esc), Encoded(esc)):
+                    q2 = list(pairs)
+                    q2[i] = (key, v2)
+                    stream.append((name, path, q2, {}, None, 'non-UTF-8 escape in %s' % key, 'ok'))
     # every form of Host header for every service
     for i, (name, path, pairs) in enumerate(bases):
         for j in range(len(HOST_FORMS) if not ctx.quick else 3):
@@ -1255,17 +1291,18 @@ def part_app(ctx, skeletons):
         if ctx.rng.random() < 0.12:
             h2 = dict(h2, **{'mapproxy.authorize': 'limited'})
         stream.append((name, p2, q2, h2, raw, what, up))
-    for name, path, pairs, headers, raw, what, up in stream:
+    for idx, (name, path, pairs, headers, raw, what, up) in enumerate(stream):
         qs = raw if raw is not None else enc_query(pairs, ctx.rng, raw_prob=0.15 if what != 'valid' else 0.0)
         wpath = wsgi_path(path, what != 'valid' and ctx.rng.random() < 0.5)
         UP['mode'] = up
-        res = call_app(app, wpath, qs, headers)
-        rep = {'service': name, 'PATH_INFO': wpath, 'QUERY_STRING': qs, 'headers': headers, 'upstream': up, 'mutation': what,
+        no_qs = qs == '' and idx % 2 == 0          # every second request without query: the environ has no QUERY_STRING key
+        res = call_app(app, wpath, None if no_qs else qs, headers)
+        rep = {'service': name, 'PATH_INFO': wpath, 'QUERY_STRING': None if no_qs else qs, 'headers': headers, 'upstream': up, 'mutation': what,
                'status': res.get('status'), 'body_head': repr(b''.join(res.get('chunks') or [])[:300]) if 'chunks' in res else None}
         req_size = requested_size(name, path, pairs) if raw is None else None
         kind = oracle_response(ctx, name, res, rep, req_size, base, skeletons, appdocs)
         status = (res.get('status') or 'raised')[:3]
-        ctx.case(('app', wpath, qs, tuple(sorted(headers.items())), up), what != 'valid',
+        ctx.case(('app', wpath, qs, no_qs, tuple(sorted(headers.items())), up), what != 'valid',
                  {'part': 'app', 'PATH_INFO': wpath, 'QUERY_STRING': qs[:200], 'headers': headers, 'status': res.get('status')}
                  if what != 'valid' and kind == 'xml-exception' else None)
         ctx.count('app:service=' + name.split('.')[0])
@@ -1285,6 +1322,8 @@ def part_app(ctx, skeletons):
                 k += 1
                 p2, q2 = fresh(path, pairs, 100 + k)
                 qs = enc_query(q2, ctx.rng)
+                if qs == '' and k % 2:
+                    qs = None                  # no QUERY_STRING key at all
                 UP['mode'] = up
                 res = call_app(faulty, p2, qs, {})
                 rep = {'service': name, 'instance': 'cache and lock directories below a regular file', 'PATH_INFO': p2, 'QUERY_STRING': qs,
